@@ -1584,3 +1584,13 @@ M('C19','muldiv-fast-path','core/safemath/safe_math.go','''	prodHi, prodLo := bi
 	prodHi, prodLo := bits.Mul64(x, y)
 ''','wrap/round-trip-validated x*y in core/safemath.Safe64MulDiv')
 M('C19','silent-mul-check-flipped-operands','core/safemath/safe_math.go','''	if result/x != y {''','''	if y != result/x {''','',silent=True)
+M('C09','set-stores-nil-value','ads/map_impl.go','''	if valueBytes == nil {
+		// a nil slice is how the trie reports an absent key, so an empty value must be stored as a non-nil empty slice
+		valueBytes = []byte{}
+	}
+''','''''','presence/stored-value-non-nil ads.authenticatedMap.Set')
+M('C09','get-absent-by-length','ads/map_impl.go','''	if valueBytes == nil {
+		return value, false, err
+	}''','''	if len(valueBytes) == 0 {
+		return value, false, nil
+	}''','presence/one-predicate presence test on the result of tree.Get in ads.authenticatedMap.Get')
